@@ -509,6 +509,19 @@ def attempt(prop, violations, anchors, exp, repo, workdir, timeout=420):
                 notes.append(dict(tag=metas[i][0]['tag'], found=False, reason='replay harness for this function does not compile at f64: '
                                   + ' / '.join(re.findall(r'(?m)^error[^\n]*', p.stderr)[:3])[:400]))
                 del alive[k]
+    # keep the shared target directory small: the dependency builds stay cached, the per-run artefacts go
+    try:
+        tdir = os.path.join(env['CARGO_TARGET_DIR'], 'debug')
+        shutil.rmtree(os.path.join(tdir, 'incremental'), ignore_errors=True)
+        for sub in ('deps', '.fingerprint', ''):
+            dd = os.path.join(tdir, sub) if sub else tdir
+            if os.path.isdir(dd):
+                for fn in os.listdir(dd):
+                    if fn.startswith('vek_replay') or fn.startswith('libvek-') or fn.startswith('vek-'):
+                        pth = os.path.join(dd, fn)
+                        shutil.rmtree(pth, ignore_errors=True) if os.path.isdir(pth) else os.remove(pth)
+    except OSError:
+        pass
     if out is None:
         return notes
     rows = {}
